@@ -2,7 +2,11 @@
 
 package keyproof
 
-import "github.com/privacybydesign/gabi/big"
+import (
+	"github.com/privacybydesign/gabi/big"
+	"github.com/privacybydesign/gabi/internal/common"
+	"github.com/privacybydesign/gabi/zkproof"
+)
 
 // Exported wrappers around the unexported component provers/verifiers of the
 // quasi-safe-prime-product proof, for the external verification harness.
@@ -56,4 +60,101 @@ func VerifQuasiSafePrimeProductVerifyStructure(p QuasiSafePrimeProductProof) boo
 }
 func VerifQuasiSafePrimeProductVerifyProof(N, challenge *big.Int, p QuasiSafePrimeProductProof) bool {
 	return quasiSafePrimeProductVerifyProof(N, challenge, p)
+}
+
+// VerifExpORForger lets the verification harness play a cheating prover against the OR-composition inside the
+// modular-exponentiation sub-proof (used by the primality proofs of p' and q'): every square-and-multiply step proves
+// "bit = 0 and the intermediate result is copied OR bit = 1 and it is multiplied", the two branches answering
+// sub-challenges that must XOR to the Fiat-Shamir challenge. The forger runs the honest prover for a true statement
+// base^exponent = result (mod n) and then replaces one chosen step by a step in which BOTH branches are simulated with
+// freely chosen sub-challenges (their commitments are substituted into the hash input before the challenge is derived).
+// A sound verifier refuses that: the sub-challenges do not XOR to the challenge.
+type VerifExpORForger struct {
+	g zkproof.Group
+}
+
+func VerifNewExpORForger(bitlen uint) (*VerifExpORForger, bool) {
+	g, ok := zkproof.BuildGroup(findSafePrime(int(bitlen) + 2*rangeProofEpsilon + 10))
+	return &VerifExpORForger{g: g}, ok
+}
+
+// Steps returns the number of square-and-multiply steps of an exponentiation proof with exponents of bitlen bits.
+func (f *VerifExpORForger) Steps(bitlen uint) int {
+	s := newExpProofStructure("a", "b", "n", "r", bitlen)
+	return len(s.interSteps)
+}
+
+// Run proves a^b = r (mod n) for the given (true or false) r with exponents of bitlen bits. With step >= 0 that step is
+// replaced by a doubly simulated one. It returns the verifier's verdict.
+func (f *VerifExpORForger) Run(a, b, n, r int64, bitlen uint, step int) bool {
+	g := f.g
+	aS, bS, nS, rS := newPedersenStructure("a"), newPedersenStructure("b"), newPedersenStructure("n"), newPedersenStructure("r")
+	var list []*big.Int
+	list, aC := aS.commitmentsFromSecrets(g, list, big.NewInt(a))
+	list, bC := bS.commitmentsFromSecrets(g, list, big.NewInt(b))
+	list, nC := nS.commitmentsFromSecrets(g, list, big.NewInt(n))
+	list, rC := rS.commitmentsFromSecrets(g, list, big.NewInt(r))
+	s := newExpProofStructure("a", "b", "n", "r", bitlen)
+
+	bases := zkproof.NewBaseMerge(&g, &aC, &bC, &nC, &rC)
+	secrets := zkproof.NewSecretMerge(&aC, &bC, &nC, &rC)
+	list, commit := s.commitmentsFromSecrets(g, list, &bases, &secrets)
+
+	var fake ExpStepProof
+	if step >= 0 {
+		var baseList []zkproof.BaseLookup
+		for i := range commit.expBits {
+			baseList = append(baseList, &commit.expBits[i])
+		}
+		for i := range commit.basePows {
+			baseList = append(baseList, &commit.basePows[i])
+		}
+		baseList = append(baseList, &commit.start)
+		for i := range commit.interRess {
+			baseList = append(baseList, &commit.interRess[i])
+		}
+		baseList = append(baseList, &bases)
+		innerBases := zkproof.NewBaseMerge(baseList...)
+		two256 := new(big.Int).Lsh(big.NewInt(1), 256)
+		fake = ExpStepProof{
+			Achallenge: common.FastRandomBigInt(two256),
+			Aproof:     s.interSteps[step].stepa.fakeProof(g),
+			Bchallenge: common.FastRandomBigInt(two256),
+			Bproof:     s.interSteps[step].stepb.fakeProof(g),
+		}
+		fakeCommitments := s.interSteps[step].commitmentsFromProof(g, nil, nil, &innerBases, fake)
+		// the step commitments are the tail of the list, in step order
+		end := len(list)
+		for j := len(s.interSteps) - 1; j > step; j-- {
+			end -= s.interSteps[j].numCommitments()
+		}
+		copy(list[end-len(fakeCommitments):end], fakeCommitments)
+	}
+
+	challenge := common.HashCommit(list, false)
+	aP, bP := aS.buildProof(g, challenge, aC), bS.buildProof(g, challenge, bC)
+	nP, rP := nS.buildProof(g, challenge, nC), rS.buildProof(g, challenge, rC)
+	proof := s.buildProof(g, challenge, commit, &secrets)
+	if step >= 0 {
+		proof.InterStepsProofs[step] = fake
+	}
+
+	// the verifier, as ValidKeyProofStructure.VerifyProof / primeProofStructure do around an exponentiation proof
+	if !aS.verifyProofStructure(aP) || !bS.verifyProofStructure(bP) || !nS.verifyProofStructure(nP) || !rS.verifyProofStructure(rP) ||
+		!s.verifyProofStructure(challenge, proof) {
+		return false
+	}
+	aP.setName("a")
+	bP.setName("b")
+	nP.setName("n")
+	rP.setName("r")
+	vbases := zkproof.NewBaseMerge(&g, &aP, &bP, &nP, &rP)
+	vproofs := zkproof.NewProofMerge(&aP, &bP, &nP, &rP)
+	var vlist []*big.Int
+	vlist = aS.commitmentsFromProof(g, vlist, challenge, aP)
+	vlist = bS.commitmentsFromProof(g, vlist, challenge, bP)
+	vlist = nS.commitmentsFromProof(g, vlist, challenge, nP)
+	vlist = rS.commitmentsFromProof(g, vlist, challenge, rP)
+	vlist = s.commitmentsFromProof(g, vlist, challenge, &vbases, &vproofs, proof)
+	return challenge.Cmp(common.HashCommit(vlist, false)) == 0
 }
